@@ -403,7 +403,7 @@ Definition dyn_text (o : token) : Prop := static_text o \/ toktype_eqb (t_typ o)
 Definition block_stmt (o : token) : Prop :=
   let code := go_trim_space (t_lit o) in
   any_prefix c_openingStatements code = true /\ has_suffix (lit "{") code = false /\
-  has_prefix (lit "}") code = false /\ has_prefix (lit "}") (t_lit o) = false.
+  has_prefix (lit "}") code = false.
 
 (** `- else` / `- else if` lines continue the block of the `-` line before them *)
 Definition is_else (n : node) : bool :=
@@ -411,15 +411,27 @@ Definition is_else (n : node) : bool :=
 (** a `-` line that opens a block of its own: an opening statement with nested content *)
 Definition is_block (n : node) : bool :=
   match n with
-  | Node (KSilent o _ _) (_ :: _) => any_prefix c_openingStatements (go_trim_space (t_lit o))
+  | Node (KSilent o _ _) (_ :: _) =>
+    any_prefix c_openingStatements (go_trim_space (t_lit o)) && negb (has_suffix (lit "{") (go_trim_space (t_lit o)))
   | _ => false
   end.
+(** a `-` line that opens a block with a brace of its own (`- if x {`): the template closes it with a `- }` line *)
+Definition manual_open (n : node) : bool :=
+  match n with
+  | Node (KSilent o _ _) (_ :: _) =>
+    any_prefix c_openingStatements (go_trim_space (t_lit o)) && has_suffix (lit "{") (go_trim_space (t_lit o))
+  | _ => false
+  end.
+(** does the list start with a `-` line that begins with a closing brace *)
+Definition closes (r : list node) : bool :=
+  match r with Node (KSilent o _ _) _ :: _ => has_prefix (lit "}") (t_lit o) | _ => false end.
 (** does the list start with an else line: the block before it is left open *)
 Definition ho (r : list node) : bool := match r with n :: _ => is_else n | [] => false end.
 (** an else line only directly after a `-` block *)
 Fixpoint adj_ok (l : list node) : Prop :=
   match l with
-  | c :: r => (ho r = true -> is_block c = true) /\ adj_ok r
+  | c :: r => (ho r = true -> is_block c = true) /\ (is_block c = true -> closes r = false) /\
+              (manual_open c = true -> closes r = true) /\ adj_ok r
   | [] => True
   end.
 Definition kids_ok (l : list node) : Prop := ho l = false /\ adj_ok l.
@@ -505,10 +517,13 @@ Fixpoint dyn_node (n : node) : Prop :=
     | KFilter FText o _ => (t_lit o = lit "escaped" /\ kids_ok ch /\ all ch) \/ (t_lit o = lit "plain" /\ Forall raw_child ch)
     | KSilent o _ _ =>
       match ch with
-      | [] => any_prefix c_elseStatements (t_lit o) = false /\ has_prefix (lit "}") (t_lit o) = false       (* a Go line *)
+      | [] => any_prefix c_elseStatements (t_lit o) = false                                                (* a Go line, `- }` *)
       | _ => (block_stmt o \/                                                                             (* a block *)
               (any_prefix c_openingStatements (go_trim_space (t_lit o)) = false /\
-               any_prefix c_elseStatements (t_lit o) = false /\ has_prefix (lit "}") (t_lit o) = false))   (* `- case x:` *)
+               any_prefix c_elseStatements (t_lit o) = false) \/                                           (* `- case x:`, `- } else {` *)
+              (any_prefix c_openingStatements (go_trim_space (t_lit o)) = true /\
+               has_suffix (lit "{") (go_trim_space (t_lit o)) = true /\
+               any_prefix c_elseStatements (t_lit o) = false))                                             (* `- if x {` *)
              /\ kids_ok ch /\ all ch
       end
     | KUnescape _ _ => Forall raw_child ch
@@ -554,7 +569,7 @@ Fixpoint segs_of (nc fl : bool) (n : node) : list seg :=
       match ch with
       | [] => [SStmt stmt]
       | _ =>
-        if any_prefix c_openingStatements stmt then
+        if any_prefix c_openingStatements stmt && negb (has_suffix (lit "{") stmt) then
           [match nc, fl with
            | false, false => SBlock stmt body
            | false, true => SBlockOpen stmt body
@@ -908,15 +923,9 @@ Proof.
     destruct (IH false false _ M) as (m2 & R2). exists m2. eapply Runu_trans; [split; [exact M|exact R]|exact R2].
 Qed.
 
-Lemma dyn_silent_raw o i c ch : dyn_node (Node (KSilent o i c) ch) -> has_prefix (lit "}") (t_lit o) = false.
-Proof.
-  cbn [dyn_node]. destruct ch as [|c0 ch0].
-  - intros [_ H]. exact H.
-  - intros [[(_ & _ & _ & H)|(_ & _ & H)] _]; exact H.
-Qed.
-
 Definition node_run_at (n : node) : Prop :=
-  dyn_node n -> forall ind sm r (m : bool) st, Forall dyn_node r -> (ho r = true -> is_block n = true) ->
+  dyn_node n -> forall ind sm r (m : bool) st, Forall dyn_node r ->
+  (ho r = true -> is_block n = true) -> (is_block n = true -> closes r = false) -> (manual_open n = true -> closes r = true) ->
   MS ind (if is_else n then false else m) st ->
   exists m' : bool,
     Run ind (if is_else n then MP else mode_of_bool m) st (if is_block n && ho r then MP else mode_of_bool m')
@@ -928,8 +937,8 @@ Lemma list_run sm (l : list node) : Forall node_run_at l -> Forall dyn_node l ->
   exists m' : bool, Run ind (if ho l then MP else mode_of_bool m) st m' (emit_list sm l (ho l) st) (segs_list (ho l) l).
 Proof.
   induction 1 as [|c rest Hc _ IH]; intros Hs Hadj ind m st H; [exists m; apply Run_refl; exact H|].
-  inversion Hs as [|? ? Hsc Hsr]; subst. destruct Hadj as [Hfl Hadj]. cbn [emit_list segs_list ho] in *.
-  destruct (Hc Hsc ind sm rest m st Hsr Hfl H) as (m1 & R1 & F1).
+  inversion Hs as [|? ? Hsc Hsr]; subst. destruct Hadj as (Hfl & Hcl & Hmo & Hadj). cbn [emit_list segs_list ho] in *.
+  destruct (Hc Hsc ind sm rest m st Hsr Hfl Hcl Hmo H) as (m1 & R1 & F1).
   assert (Efl : is_block c && ho rest = ho rest) by (destruct (ho rest); [rewrite (Hfl eq_refl); reflexivity|apply Bool.andb_false_r]).
   rewrite Efl in *.
   destruct (emit_node sm c (hd_error rest) (is_else c) st) as [s1 f1]. cbn [fst snd] in *. subst f1.
@@ -946,7 +955,7 @@ Qed.
 
 Theorem dyn_node_runs n : node_run_at n.
 Proof.
-  induction n as [k ch IH] using node_ind2. intros Hs ind sm r m st Hr Hadj1 H.
+  induction n as [k ch IH] using node_ind2. intros Hs ind sm r m st Hr Hadj1 Hadj2 Hadj3 H.
   rewrite emit_node_unfold. cbn [dyn_node] in Hs. cbn [segs_of]. rewrite !segs_kids_eq.
   destruct k; try contradiction; cbn [is_else is_block andb] in *; unfold emit_node_body; cbv zeta.
   - (* doctype *)
@@ -1029,7 +1038,7 @@ Proof.
   - (* a `-` line *)
     destruct ch as [|c0 ch0].
     + (* a line of Go *)
-      destruct Hs as [Helse Hraw]. cbn [is_block andb] in *. rewrite Helse in *. cbn [andb negb fst snd].
+      rename Hs into Helse. cbn [is_block manual_open andb] in *. rewrite Helse in *. cbn [andb negb fst snd].
       set (code := go_trim_space (t_lit origin)) in *.
       destruct (tw_wri_run ind m [] st H) as [M1 T1]. set (st1 := tw_wri [] st) in *.
       assert (Q1 : quiet st1) by (destruct M1 as [A B]; split; [exact A|rewrite B; reflexivity]).
@@ -1043,15 +1052,15 @@ Proof.
       * assert (Ds : denotes ind false false (tabs ind ++ code ++ [10]) [SStmt code]).
         { rewrite <- (app_nil_r (tabs ind ++ code ++ [10])). apply d_stmt. constructor. }
         destruct m; [apply d_close; exact Ds|exact Ds].
-    + destruct Hs as [[Hblock|(Hnop & Helse & Hraw0)] [Hko Hch]].
+    + destruct Hs as [[Hblock|[(Hnop & Helse)|(Hop1 & Hsuf1 & Helse1)]] [Hko Hch]].
       * (* a block, alone or as a link of an if / else chain *)
-        pose proof Hblock as (Hop & Hsuf & Hpre & Hraw). apply (proj1 (dyn_all_eq (c0 :: ch0))) in Hch.
-        cbn [is_block] in *. rewrite Hop in *. cbn [andb] in *.
+        pose proof Hblock as (Hop & Hsuf & Hpre). apply (proj1 (dyn_all_eq (c0 :: ch0))) in Hch.
+        cbn [is_block manual_open] in *. rewrite Hop, Hsuf in *. cbn [andb negb] in *.
         assert (Hne : c0 :: ch0 <> []) by discriminate.
         generalize dependent (c0 :: ch0). intros ch IH Hko Hch Hne. clear c0 ch0.
         {
     set (nc := any_prefix c_elseStatements (t_lit origin)) in *.
-            rewrite Hsuf, Hpre. cbn [andb negb]. rewrite !Bool.andb_true_r.
+            rewrite ?Hop, ?Hsuf, ?Hpre. cbn [andb negb]. rewrite ?Bool.andb_true_r.
         destruct ch as [|c0 ch0]; [congruence|]. cbn [andb negb].
         set (code := go_trim_space (t_lit origin)) in *.
         set (m0 := if nc then false else m) in *.
@@ -1084,7 +1093,7 @@ Proof.
                         | None => ho r = false
                         end).
         { destruct r as [|n' r']; [reflexivity|]. inversion Hr as [|? ? Hn' _]; subst. destruct n' as [k' ch']. cbn [hd_error is_silent ho is_else].
-          destruct k'; try reflexivity. split; [exact (dyn_silent_raw _ _ _ _ Hn')|reflexivity]. }
+          destruct k'; try reflexivity. split; [exact (Hadj2 eq_refl)|reflexivity]. }
         destruct (ho r) eqn:Eho.
         + (* left open for the else that follows *)
           destruct (is_silent (hd_error r)) as [next_code|]; [|discriminate]. destruct Hflag as [Hc1 Hc2]. rewrite Hc1, Hc2. cbn [andb negb fst snd].
@@ -1144,6 +1153,44 @@ Proof.
                         end) = (st6, false)).
         { destruct r as [|n' r']; [reflexivity|]. cbn [hd_error]. destruct n' as [k' ch']. destruct k'; try reflexivity.
           cbn [is_silent]. cbn [ho is_else] in Hho. rewrite Hho. reflexivity. }
+        rewrite Hout. cbn [fst snd]. exists false. split; [|reflexivity]. split; [split; [exact E6|exact E4]|].
+        exists ((if m then close_text (Lo ind) else []) ++ tabs ind ++ code ++ [10] ++ body_code ++ (if mb then close_text (Lo (S ind)) else [])). split.
+        -- unfold st6. rewrite txt_set_local, T6, T5, T4, T3, T1. cbn [app]. rewrite <- !app_assoc. reflexivity.
+        -- assert (Dl : denotes ind false false (tabs ind ++ code ++ [10] ++ body_code ++ (if mb then close_text (Lo (S ind)) else [])) [SLine code (segs_list false (c0 :: ch0))]).
+           { rewrite <- (app_nil_r (tabs ind ++ code ++ [10] ++ body_code ++ _)). apply d_line; [exact D5|constructor]. }
+           destruct m; [apply d_close; exact Dl|exact Dl].
+      * (* a line that opens a block with its own brace, closed by a later `- }` line *)
+        apply (proj1 (dyn_all_eq (c0 :: ch0))) in Hch. cbn [is_block manual_open] in *. rewrite Hop1, Hsuf1 in *. rewrite Helse1 in *. cbn [andb negb] in *.
+        assert (Hho : ho r = false) by (destruct (ho r); [specialize (Hadj1 eq_refl); discriminate|reflexivity]).
+        pose proof (Hadj3 eq_refl) as Hcl.
+        set (code := go_trim_space (t_lit origin)) in *.
+        destruct (tw_wri_run ind m [] st H) as [M1 T1]. set (st1 := tw_wri [] st) in *.
+        assert (Q1 : quiet st1) by (destruct M1 as [A B]; split; [exact A|rewrite B; reflexivity]).
+        destruct (tw_write_add_quiet sm code origin st1 Q1) as [Q3 L3]. pose proof (tw_write_add_txt sm code origin st1 Q1) as T3.
+        set (st3 := tw_write_add sm code origin st1) in *.
+        destruct (tw_wr_quiet [10] st3 Q3) as [Q4 L4]. pose proof (tw_wr_txt [10] st3 Q3) as T4.
+        set (st4 := tw_wr [10] st3) in *.
+        assert (E4 : snd st4 = Lc ind) by (rewrite L4, L3; exact (proj2 M1)).
+        assert (Mb : MS (S ind) false (set_local st4 (indent_local (snd st4) 1))).
+        { split; [exact (proj1 Q4)|]. cbn [set_local snd]. rewrite E4. unfold indent_local, Lc, loc_of. cbn [wl_indent wl_static wl_errh wl_unesc]. rewrite Nat.add_1_r. reflexivity. }
+        destruct (kids_run sm (c0 :: ch0) IH Hch Hko (S ind) false _ Mb) as (mb & R5).
+        pose proof (Run_ms (S ind) R5) as [E5 L5]. destruct R5 as [_ (body_code & T5 & D5)].
+        rewrite txt_set_local in T5.
+        set (st5 := emit_list sm (c0 :: ch0) false (set_local st4 (indent_local (snd st4) 1))) in *.
+        assert (Hclose : w_err (fst (tw_close st5)) = None /\ txt (tw_close st5) = txt st5 ++ (if mb then close_text (Lo (S ind)) else [])).
+        { unfold tw_close, close_if_static. rewrite L5. destruct mb; cbn [loc_of Lo Lc wl_static].
+          - destruct (close_string_literal_txt st5 E5) as ([Ec _] & _ & _ & Tc). rewrite L5 in Tc. split; [exact Ec|exact Tc].
+          - split; [exact E5|rewrite app_nil_r; reflexivity]. }
+        destruct Hclose as [E6 T6].
+        set (st6 := set_local (tw_close st5) (snd st4)) in *.
+        assert (Hout : (match is_silent (hd_error r) with
+                        | Some next_code =>
+                          if negb (has_prefix (lit "}") next_code) && negb (any_prefix c_elseStatements next_code)
+                          then (tw_wri (lit "}" ++ [10]) st6, false) else (st6, any_prefix c_elseStatements next_code)
+                        | None => (tw_wri (lit "}" ++ [10]) st6, false)
+                        end) = (st6, false)).
+        { destruct r as [|n' r']; [discriminate|]. cbn [hd_error]. destruct n' as [k' ch']. destruct k'; try discriminate.
+          cbn [is_silent closes] in *. cbn [ho is_else] in Hho. rewrite Hcl, Hho. reflexivity. }
         rewrite Hout. cbn [fst snd]. exists false. split; [|reflexivity]. split; [split; [exact E6|exact E4]|].
         exists ((if m then close_text (Lo ind) else []) ++ tabs ind ++ code ++ [10] ++ body_code ++ (if mb then close_text (Lo (S ind)) else [])). split.
         -- unfold st6. rewrite txt_set_local, T6, T5, T4, T3, T1. cbn [app]. rewrite <- !app_assoc. reflexivity.
